@@ -26,6 +26,8 @@ FORBID = r"(to_string_lossy|OsStr::to_str$|str::trim|str::replace|to_lowercase|t
 
 def run(ctx):
     fx, res = ctx.fx, ctx.res
+    import lemmas
+    lemmas.osstr_find_complete(fx, res, "R2.4")      # react's contains/split on the value delimiter is built on OsStrExt::find
     MA = r"^clap_builder::parser::matches::matched_arg::MatchedArg::"
     # ---- R2.1
     writers = {}
